@@ -87,7 +87,7 @@ func (m *overlayDocument) LayerNames() []string {
 func (m *overlayDocument) Add(overlay string, value Container) {
 	cb := m.ensureOverlay(overlay)
 	for k, v := range value.Children() {
-		cb.AddValue(k, v)
+		cb.AddValue(k, v.Clone())
 	}
 }
 
